@@ -76,6 +76,9 @@ def generate(tier, rng):
       case['ctuple'] = n % 2 == 1
       if n % 4 == 2:
         case['rounds'] = case['rounds'][:3] + [[]] + case['rounds'][4:]      # a round without any client
+      if n % 4 == 1:      # the whole population at once, then a single client, then one that comes back
+        allc = list(range(len(case['pop'])))
+        case['rounds'] = [case['rounds'][0], allc[::2] + allc[1::2][::-1], [allc[-1]], [allc[0]]] + case['rounds'][4:]
       hp = case['hp']
       if k == 'agnostic':
         hp['scal'] = [None, 'np', 'jnp'][hp['W'] % 3]
@@ -105,6 +108,10 @@ def generate(tier, rng):
            'dscale': 1.0 if i % 2 == 0 else [1e-30, 1e-7, 1.0, 1e6, 1e18, 1e-7, 1.0, 1e6, 1e-30][(i // 2 + i // 18) % 9],
            'ulp': [0, 0, 0, 0, -1, 1, 2][i % 7],      # 2: bound == norm exactly; -1 / 1: one ulp below / above it
            'K': 1 + i % 3, 'pop': _pop(rng, 2, 4), 'nojit': i % 3 == 2, 'np': i % 2 == 1, 'seed': rng.randrange(1000)}
+  # EXHAUSTIVE: every sequence of cohorts (all subsets, the empty one included) of 3 (quick) / 4 (thorough) clients over 3 rounds
+  yield {'kind': 'apfl_grid', 'nclients': 3 if tier == 'quick' else 4, 'nrounds': 3, 'hp': {'coef': 0.5, 'clr': 0.125, 'bs': BS, 'epochs': 1, 'sopt': 'sgd'},
+         'pop': [{'s': 3, 'cnt': [4, 0], 'g': 0}, {'s': 5, 'cnt': [0, 0], 'g': 1}, {'s': 8, 'cnt': [1, 1], 'g': 2}, {'s': 2, 'cnt': [0, 4], 'g': 1}],
+         'seed': rng.randrange(1000)}
   if tier != 'search':
     yield from _flag_cases(tier, rng)
     # the same histories in another interpreter process (other PYTHONHASHSEED): the observations must be identical
@@ -229,7 +236,48 @@ def observations(payload):
   return [json.dumps(run(c), sort_keys=True) for c in payload['cases']]
 
 
+def _run_apfl_grid(case):
+  import itertools
+  hp = case['hp']
+  alg = tiny.algorithm('apfl', hp)
+  dss = [tiny.client_dataset(s) for s in case['pop']]
+  nc = case['nclients']
+  subsets = [list(s) for k in range(nc + 1) for s in itertools.combinations(range(nc), k)]
+  out = {'err': None, 'histories': 0, 'bad': [], 'sample': []}
+  cache = {}        # state after a prefix of cohorts (the algorithm is a function of state and cohort: re-use prefixes)
+  try:
+    for hist in itertools.product(range(len(subsets)), repeat=case['nrounds']):
+      st, seen = tiny.init_state('apfl', hp, alg), set()
+      for r, si in enumerate(hist):
+        key = hist[:r + 1]
+        sel = subsets[si][::-1] if (si + r) % 2 else subsets[si]          # cohorts also in descending order
+        if key in cache:
+          st2 = cache[key]
+        else:
+          prev = dict(st.client_states)
+          st2, _ = alg.apply(st, [(tiny.cid(i), dss[i], tiny.client_rng(case['seed'], r, i)) for i in sel])
+          cache[key] = st2
+          kept = all(tiny.cid(i) in st2.client_states and st2.client_states[tiny.cid(i)] is prev[tiny.cid(i)]
+                     for i in range(nc) if tiny.cid(i) in prev and i not in sel)
+          if not kept:
+            out['bad'].append(['entry-of-non-participant-changed', list(hist), r])
+        seen |= set(subsets[si])
+        keys = sorted(tiny.cid_index(k) for k in st2.client_states)
+        if keys != sorted(seen):
+          out['bad'].append(['keys', list(hist), r, keys, sorted(seen)])
+        if len(out['sample']) < 40 and (sum(hist) + r) % 7 == 0:
+          out['sample'].append([sorted(tiny.cid_index(k) for k in st.client_states), sel, keys])
+        st = st2
+      out['histories'] += 1
+    out['bad'] = out['bad'][:5]
+  except Exception as ex:
+    out['err'] = type(ex).__name__ + ': ' + str(ex)[:200]
+  return out
+
+
 def run(case):
+  if case['kind'] == 'apfl_grid':
+    return _run_apfl_grid(case)
   if case['kind'] == 'xproc':
     from lib import c10c17_xproc as xp
     here = observations({'cases': case['cases']})
@@ -259,7 +307,9 @@ def _run_direct(case):
   from fedjax.core import models as fj_models
   from fedjax.core import tree_util
   out = {'err': None}
-  arr = (lambda x: np.asarray(x, np.float32)) if case['np'] else (lambda x: jnp.asarray(x, jnp.float32))
+  lay = [None, 'neg', 'skip', 'col', 'ro', 'F'][case['i'] % 6] if case['np'] else None      # numpy inputs also in non-default layouts
+  arr = ((lambda x: tiny.relayout(np.asarray(x, np.float32), lay) if lay else np.asarray(x, np.float32)) if case['np']
+         else (lambda x: jnp.asarray(x, jnp.float32)))
   ctx = jax.disable_jit() if case['nojit'] else contextlib.nullcontext()
   try:
     with ctx:
@@ -291,6 +341,13 @@ def _run_direct(case):
       flat = np.concatenate([np.asarray(cl['a'], np.float64), np.asarray(cl['b']['c'], np.float64)])
       out['clip'] = {'d': _f(d), 'norm': float(np.sqrt(np.sum(d.astype(np.float64) ** 2))), 'n32': float(n32), 'res': _f(flat),
                      'input_same': tiny.same_snapshot(tb, tiny.snapshot(tree))}
+      # a complex leaf and a size-1 leaf (the norm is over |z|^2)
+      z = {'z': jnp.asarray([d[0] + 1j * d[1], d[2] - 1j * d[3]], jnp.complex64), 'one': arr(d[4:5])}
+      zc = tree_util.tree_clip_by_global_norm(z, bound)
+      zf = np.concatenate([np.asarray(zc['one'], np.complex128).reshape(-1), np.asarray(zc['z'], np.complex128)])
+      out['clipz'] = {'norm_in': float(np.sqrt(np.sum(np.abs(np.concatenate([d[4:5].astype(np.complex128), np.asarray(z['z'], np.complex128)])) ** 2))),
+                      'norm_out': float(np.sqrt(np.sum(np.abs(zf) ** 2))), 'finite': bool(np.all(np.isfinite(zf))),
+                      'kinds_same': jax.tree_util.tree_structure(zc) == jax.tree_util.tree_structure(z)}
       # maximization step on its own
       K = case['K']
       cps = [tiny.init_params(k) for k in range(K)]
@@ -578,9 +635,10 @@ def _run_ignore(case):
       rst_leaves = [tiny.leaf_bytes(l) for l in jax.tree_util.tree_leaves(rstate)]
       out['steps'].append({'named_same': named_same, 'rest_same': rest_same, 'state_same': st_leaves == rst_leaves,
                            'input_same': tiny.same_snapshot(before, tiny.snapshot(params)),
+                           'structure_same': jax.tree_util.tree_structure(params2) == jax.tree_util.tree_structure(params),
                            'p': _flat(params), 'g': _flat(grads), 'p_new': _flat(p2),
                            'keys_same': sorted((m, n) for m in p2 for n in p2[m]) == sorted((m, n) for m, n, _ in _IG_KEYS)})
-      params, state = p2, state2
+      params, state = (p2 if s % 2 else params2), state2
   except Exception as ex:
     out['err'] = type(ex).__name__ + ': ' + str(ex)[:200]
   return out
@@ -607,6 +665,13 @@ def oracle(case, obs):
     if obs.get('err_empty_cohort'):
       return [(k + '.empty-cohort-raises', f'{k}: apply() on an empty client selection raised {obs["err"]}')]
     return [(k + '.raises', f'{k}: raised {obs["err"]}')]
+  if k == 'apfl_grid':
+    out = []
+    for b in obs['bad']:
+      out.append(('apfl.state-not-only-participants', f'cohort sequence {b[1]} (subset indices), round {b[2]}: {b[0]} {b[3:]}'))
+    if obs['histories'] != (2 ** case['nclients']) ** case['nrounds']:
+      out.append(('harness.grid-incomplete', f'{obs["histories"]} histories'))
+    return out
   if k == 'direct':
     return _or_direct(case, obs)
   return {'agnostic': _or_agnostic, 'apfl': _or_apfl, 'hyp_cluster': _or_hyp, 'mime_lite': _or_mime, 'ignore': _or_ignore}[k](case, obs)
@@ -632,6 +697,9 @@ def _or_direct(case, obs):
     bad = bad or not (np.all(np.abs(res - ref) <= 1e-4 * np.abs(ref) + 1e-37))
   if bad:
     out.append(('tree_clip.not-clipped', f'tree_clip_by_global_norm({c["d"]}, {b}) = {c["res"]}'))
+  z = obs['clipz']
+  if math.isfinite(z['norm_in']) and z['norm_in'] < 1e18 and (not z['finite'] or z['norm_out'] > b * (1 + 1e-4) + 1e-18 or not z['kinds_same']):
+    out.append(('tree_clip.not-clipped', f'complex / size-1 leaves: norm {z["norm_in"]} -> {z["norm_out"]} with bound {b}'))
   m = obs['max']
   for a, ls in zip(m['assign'], m['losses']):
     if not (0 <= a < len(ls)) or ls[a] > min(ls) + TOL * (1 + abs(min(ls))):
@@ -756,6 +824,8 @@ def _or_ignore(case, obs):
       out.append(('ignore.named-leaf-changed', f'step {s}: an ignored parameter was not returned bit-identical'))
     if not so['rest_same'] or not so['state_same']:
       out.append(('ignore.rest-differs-from-base', f'step {s}: trainable parameters / optimizer state differ from the base optimizer on the restricted tree'))
+    if not so.get('structure_same', True):
+      out.append(('ignore.container-type-changed', f'step {s}: the returned params do not have the tree structure (container kinds) of the params passed in'))
     if not so['input_same']:
       out.append(('ignore.input-mutated', f'step {s}: the input parameter tree was modified'))
   return out
@@ -782,7 +852,11 @@ def encode(case, obs):
     return None
   k = case['kind']
   ins, outs = [], []
-  if k == 'direct':
+  if k == 'apfl_grid':
+    for prev, sel, keys in obs['sample']:
+      ins.append(f'(IKeys {_zl(prev)} {_zl(sel)})')
+      outs.append(f'(OKeys {_zl(keys)})')
+  elif k == 'direct':
     eg, c, m = obs['eg'], obs['clip'], obs['max']
     ins.append(f'(IEg {_ql(eg["w"])} {_ql(eg["e"])})')
     outs.append(f'(OVec {_ql(eg["w_new"])})')
@@ -866,6 +940,8 @@ def nontrivial(case, obs):
   if obs['err']:
     return False
   k = case['kind']
+  if k == 'apfl_grid':
+    return obs['histories'] > 1
   if k == 'direct':
     return obs['clip']['norm'] > obs['bound'] or case['lr'] > 0
   if k == 'agnostic':
